@@ -53,6 +53,8 @@ def r_lm(lm):
         return 'contents matches %s%s' % ('-full ' if lm[1] else '', r_regex(lm[2]))
     if k == 'cempty':
         return 'contents is-empty'
+    if k == 'cnum':
+        return 'contents num-lines %s %d' % (lm[1], lm[2])
     if k == 'lconst':
         return 'constant %s' % ('true' if lm[1] else 'false')
     if k == 'lnot':
